@@ -578,6 +578,7 @@ func (vc *FnVC) doCall(ins ssa.Instruction, c *ssa.CallCommon, st *State) {
 		if fc == nil && inModule(fn) {
 			fc = vc.defaultFrameContract(fn)
 		}
+		vc.atCallObligations(fn, args, st)
 		if fn.String() == "errors.As" && len(c.Args) == 2 {
 			results = vc.doErrorsAs(c, st)
 		} else if fc == nil {
@@ -1519,4 +1520,93 @@ func (vc *FnVC) callPreTags() []string {
 		}
 	}
 	return out
+}
+
+// atCallObligations: the caller's `atcall` clauses for this callee, checked in the state before the
+// call with the actual arguments bound to arg_<parameter>.
+func (vc *FnVC) atCallObligations(fn *ssa.Function, args []Val, st *State) {
+	if vc.fc == nil || len(vc.fc.AtCalls) == 0 {
+		return
+	}
+	id := vc.prog.contractID(fn)
+	key := id
+	if k := strings.Index(id, "::"); k >= 0 {
+		key = id[k+2:]
+	}
+	for _, ac := range vc.fc.AtCalls {
+		if ac.Callee != key || !vc.clauseApplies(ac.Cl) {
+			continue
+		}
+		env := vc.newEnv(st, vc.entry)
+		ps := paramList(fn.Signature)
+		for i, p := range ps {
+			if i < len(args) && p.Name() != "" && p.Name() != "_" {
+				env.vars["arg_"+p.Name()] = args[i]
+			}
+		}
+		t := vc.trBool(ac.Cl.E, env)
+		tags := vc.fnTags()
+		if len(ac.Cl.Tags) > 0 {
+			tags = ac.Cl.Tags
+		}
+		name := ac.Cl.Name
+		if name == "" {
+			name = "atcall"
+		}
+		vc.oblige("call-pre", calleeLabel(fn)+"/"+name, t, tags, ac.Cl.Src)
+	}
+}
+
+// callSitesOf: the static call sites of the function with this contract key in the function under
+// proof, none of them inside a loop (nil, false otherwise).
+func (vc *FnVC) callSitesOf(key string) ([]*ssa.Call, bool) {
+	var out []*ssa.Call
+	for _, b := range vc.fn.Blocks {
+		for _, ins := range b.Instrs {
+			call, ok := ins.(*ssa.Call)
+			if !ok {
+				continue
+			}
+			fn := call.Call.StaticCallee()
+			if fn == nil {
+				continue
+			}
+			id := vc.prog.contractID(fn)
+			if k := strings.Index(id, "::"); k >= 0 {
+				id = id[k+2:]
+			}
+			if id != key {
+				continue
+			}
+			for _, li := range vc.loops {
+				if li.body[b] || li.header == b {
+					return nil, false
+				}
+			}
+			out = append(out, call)
+		}
+	}
+	return out, true
+}
+
+// calledSoFar: a condition that holds on every path to the current instruction on which the call
+// has been executed.
+func (vc *FnVC) calledSoFar(c *ssa.Call) string {
+	b := c.Block()
+	if b == vc.curBlock {
+		for _, ins := range b.Instrs {
+			if ins == ssa.Instruction(c) {
+				return "true"
+			}
+			if ins == vc.curInstr {
+				return "false"
+			}
+		}
+		return "false"
+	}
+	r, ok := vc.reach[b]
+	if !ok {
+		return "false"
+	}
+	return r
 }
